@@ -508,7 +508,7 @@ fn par_case(ctx: &mut Ctx, idx: u64) {
 pub fn run(ctx: &mut Ctx) {
     install_sched_hook();
     let only_threads = ctx.arg("--mode").as_deref() == Some("threads");
-    let n_cases = ctx.pick(900, 30000);
+    let n_cases = ctx.pick(4000, 30000);
     for idx in 0..n_cases {
         if !ctx.mine(idx) {
             continue;
